@@ -414,6 +414,10 @@ pub fn matches_check(a: &str, b: &str, ea: &str, eb: &str, ra: bool, rb: bool) -
     let lwant = if !lx.extensions.private.is_empty() || !ly.extensions.private.is_empty() { false } else { want };
     if lx.matches(&ly, ra, rb) != lwant { return Some(format!("Locale \"{}\".matches(\"{}\", {}, {}) = {}, expected {}", lx, ly, ra, rb, !lwant, lwant)); }
     if x.matches(&ly.id, ra, rb) != want { return Some(format!("LanguageIdentifier \"{}\" matched against the id of Locale \"{}\" disagrees with the formula", a, ly)); }
+    // a LanguageIdentifier can be matched against a Locale directly (AsRef<LanguageIdentifier> for Locale is its id)
+    if x.matches(&ly, ra, rb) != want { return Some(format!("LanguageIdentifier \"{}\".matches(&Locale \"{}\", {}, {}) = {}, the formula on its id gives {}", a, ly, ra, rb, !want, want)); }
+    let as_id: &LanguageIdentifier = ly.as_ref();
+    if *as_id != ly.id { return Some(format!("AsRef<LanguageIdentifier> for Locale \"{}\" is not its id", ly)); }
     None
 }
 /// bound: the product domain of C11's quantifier: (3 languages x 3 scripts x 3 regions x 4 variant lists) squared x 4 flag pairs x
